@@ -301,7 +301,7 @@ def toyShiftNoRange : Shift ⟨Bool, Nat × Nat, Unit, Nat, Nat, Unit, Unit, Nat
    fun k p => p + k, fun _ t => t⟩
 
 theorem toyNoRange_shiftEnv (k : Nat) : ShiftEnv toyEnvNoRange toyShiftNoRange k where
-  lex := by intro m src; cases src <;> simp [toyEnvNoRange, toyShiftNoRange]
+  lex := by intro m src; cases src <;> simp [toyEnvNoRange, toyShiftNoRange, Nat.add_comm]
   parse := by
     intro m toks
     rcases toks with _ | ⟨a, rest⟩ <;>
@@ -336,7 +336,7 @@ example : (Ty.stmt.parseStartsAt toyEnvNoRange true 5 : Res (Out _)) = .ok (.stm
   simp
 
 theorem toy_shiftEnv (b : Bool) (k : Nat) : ShiftEnv (toyEnv b) toyShift k where
-  lex := by intro m src; cases src <;> simp [toyEnv, toyShift]
+  lex := by intro m src; cases src <;> simp [toyEnv, toyShift, Nat.add_comm]
   parse := by
     intro m toks
     rcases toks with _ | ⟨a, _ | ⟨t, rest⟩⟩
